@@ -153,5 +153,31 @@ pub fn cmd_pwstr(args: &[String]) {
             Err(e) => rep.fail("crypto_pwhash_str failed", json!(format!("{:?}", e))),
         }
     }
+    // the stock profiles of the object API carry libsodium's cost constants and produce strings libsodium accepts
+    let level: u64 = args.get(3).and_then(|x| x.parse().ok()).unwrap_or(0);
+    let profiles: [(&str, u64, usize, u64); 3] = [("interactive", 2, 64 << 20, 1), ("moderate", 3, 256 << 20, 1), ("sensitive", 4, 1024 << 20, 2)];
+    for (name, ops, mem, need) in profiles {
+        if level < need { continue; }
+        let pw = rng.bytes(11);
+        let mut wrong = pw.clone(); wrong[3] ^= 0x40;
+        rep.evaluations += 1;
+        rep.case(&format!("profile|{}", name));
+        let r = catch(|| match name { "interactive" => PwHash::<Vec<u8>, Vec<u8>>::hash_interactive(&pw), "moderate" => PwHash::<Vec<u8>, Vec<u8>>::hash_moderate(&pw), _ => PwHash::<Vec<u8>, Vec<u8>>::hash_sensitive(&pw) });
+        match r {
+            Ok(Ok(p)) => {
+                let st = p.to_string();
+                let want_prefix = format!("$argon2id$v=19$m={},t={},p=1$", mem / 1024, ops);
+                if !st.starts_with(&want_prefix) { rep.fail(&format!("PwHash::hash_{}: string does not carry libsodium's {} costs", name, name), json!({"string": st, "want_prefix": want_prefix})); }
+                if !so_verify(&st, &pw) { rep.fail(&format!("PwHash::hash_{}: libsodium rejects the string", name), json!({"string": st})); }
+                if so_verify(&st, &wrong) { rep.fail("libsodium accepts a wrong password (harness error)", json!({"string": st})); }
+                if so_needs(&st, ops, mem) != 0 { rep.fail(&format!("PwHash::hash_{}: libsodium says the string needs a rehash at the {} limits", name, name), json!({"string": st})); }
+                if p.verify(&pw).is_err() || p.verify(&wrong).is_ok() { rep.fail(&format!("PwHash::hash_{}: verify verdicts wrong", name), json!({"string": st})); }
+                let (h, sa, _cfg) = p.into_parts();
+                if h.len() != 32 || sa.len() != 16 { rep.fail(&format!("PwHash::hash_{}: hash/salt length differs from libsodium's string format", name), json!({"hash": h.len(), "salt": sa.len()})); }
+            }
+            Ok(Err(e)) => rep.fail(&format!("PwHash::hash_{} failed", name), json!(format!("{:?}", e))),
+            Err(pn) => rep.fail(&format!("PwHash::hash_{} panicked", name), json!(pn)),
+        }
+    }
     rep.write(&args[1]);
 }
